@@ -262,6 +262,9 @@ func (m *Message) Clone() *Message {
 	return &Message{
 		Ctx:    m.Ctx,
 		Record: m.Record.Clone(),
+		// a filtered message stays filtered on every fan-out branch, otherwise
+		// the destinations of a multi-destination pipeline would write it
+		filtered: m.filtered,
 	}
 }
 
